@@ -276,7 +276,7 @@ def build_items(run):
 def main():
     run = Run("C02", "translation_validation")
     items = build_items(run)
-    results = jobs.run_jobs(job, items, timeout=300 if run.quick else 900)
+    results = jobs.run_jobs(job, items, timeout=100 if run.quick else 900)
     run.notes.append({"slowest_jobs": jobs.slowest(items, lambda it: it["id"])})
     programs = checked = stages = muts = 0
     passes = {}
